@@ -5,5 +5,6 @@ d=/verif/seeded/$name
 git -C /repo apply "$d/patch.diff" || { echo "patch does not apply"; exit 3; }
 cd /verif && ./check "$p" "$tier" > /tmp/seedtest_$name.log 2>&1; rc=$?
 git -C /repo checkout -- . 
+(cd /verif && PYTHONPATH=/verif /venv/bin/python -m harness.gen_all >/dev/null 2>&1)
 echo "seed $name check $p $tier -> exit $rc"; grep -E "^VIOLATION|^KNOWN" /tmp/seedtest_$name.log | cut -c1-300
 exit $rc
